@@ -71,14 +71,18 @@ class Keccak(object):
         return A
 
     def __call__(self,M,bitlen=None,r=None):
+        # a rate given here applies to this call only:
+        if r is not None:
+            r0 = self.r
+            self.setrate(r)
+            try:
+                return self(M,bitlen)
+            finally:
+                self.setrate(r0)
         # create state (null) :
         S = State(self.w)
-        # set rate:
-        if r is None:
-            assert self.r
-            r = self.r
-        else:
-            self.setrate(r)
+        assert self.r
+        r = self.r
 
         #Absorbing phase
         for Pi in self.iterblocks(M,bitlen):
